@@ -269,6 +269,22 @@ fn replay(dir: &str) -> Value {
                     mm.push("indistinct", json!({"id": c["id"], "fam": c["fam"], "text": text, "other": o["text"], "form": form_name}));
                 }
             }
+            // the unparenthesised text NEXT TO a differently grouped sibling in one list (tuple elements, array elements):
+            // the grouping of an expression does not depend on its neighbours
+            if n_cells == 0 {
+                if let Some(o) = c["others"].as_array().unwrap().iter().find(|o| o["ok"] == true) {
+                    let ot = o["text"].as_str().unwrap();
+                    for (shape, expr) in [("tuple", format!("({ot}, {text}).1")), ("tuple-rev", format!("({text}, {ot}).0")), ("array", format!("[{ot}, {text}][1]"))] {
+                        let prog_s = program(decls, &expr, &want["v"], form);
+                        let got_s = run_program(&prog_s, n_cells);
+                        v_runs += 1;
+                        if !outcome_eq(want, &got_s) {
+                            mm.push("value", json!({"id": c["id"], "fam": c["fam"], "text": text, "form": format!("{form_name}/sibling-{shape}"), "program": prog_s,
+                                "prescribed": want["text"], "expected": want, "got": got_s}));
+                        }
+                    }
+                }
+            }
             if form == 1 && (c["id"].as_u64().unwrap() % 331 == 7 || c["fam"] == "v_idiom" && c["id"].as_u64().unwrap() % 13 == 0) {
                 samples.push(json!({"fam": c["fam"], "program": prog, "spec": want, "impl": got}));
             }
